@@ -463,6 +463,8 @@ func random(e *vlib.Env) vlib.Result {
 		YieldP:    []float64{0, 0.3, 0.6}[r.Intn(3)],
 		YieldUs:   []int{0, 40, 150}[r.Intn(3)],
 	}
+	// Message.UUID is not an identity: a quarter of the programs use empty or equal UUIDs (see gcw.Program.UUIDs)
+	prog.UUIDs = []string{"", "", "empty", "same"}[vlib.HashStr(e.ID())%4]
 	for i, n := 0, r.Range(1, 3); i < n; i++ {
 		prog.Pubs = append(prog.Pubs, gcw.PubSpec{Topic: r.Intn(prog.Topics), N: r.Range(1, 12), Batch: r.Range(1, 2)})
 	}
